@@ -10,3 +10,13 @@ class GetInputDataBounded(NativeBounded):
 
 
 BOUNDED = [GetInputDataBounded()]
+
+
+class SetDataBounded(NativeBounded):
+    property_ids = ["C16"]
+    module = "contracts.dataplane_native"
+    func = "bounded_set_data"
+    what = "mosaik.simmanager.MosaikRemote.set_data"
+
+
+BOUNDED.append(SetDataBounded())
